@@ -887,8 +887,15 @@ class C17(Suite):
             form = {"n": "abbr" if c["zone"] else "plain", "t": "key", "f": "numeric"}[c["detail"]]
             return f"rt:{z}:{form}:p{c['p']}:{res}"
         if k == "rtd":
-            return "rtd:" + ("out-of-range" if out == "reject:range" else
-                             "ok" if out.rsplit("|", 1)[1].startswith("ok") else out.rsplit("|", 1)[1])
+            if out == "reject:range":
+                return "rtd:out-of-range"
+            res = out.rsplit("|", 1)[1]
+            mu, _ = mu_bias(float.fromhex(c["v"]))
+            ztok = ZONES.table(c["zone"], mu // M)
+            _, first, trans = parse_table(ztok)
+            per = [pr for t, pr in [(None, first)] + trans if t is None or t <= mu // M][-1]
+            n = len(preimages(ztok, mu // M + per[0]))      # (of the unrounded second: a histogram, not an oracle)
+            return f"rtd:{'repeated-hour' if n >= 2 else 'unique'}:" + ("ok" if res.startswith("ok") else res)
         if k in ("parse", "durp", "loc"):
             return f"{k}:" + ("ok" if out.startswith("ok") else out)
         if k == "wf":
